@@ -48,6 +48,10 @@ ASSUMPTIONS = ["namespace classes are associated before their render class is su
                "used, as the documentation requires"]
 
 
+def args_classes_early(classes):
+    return [i for i, c in enumerate(classes) if c["fields"] is not None]
+
+
 def run(ch, ctx, fault=None):
     w = World(ctx, ch, fault, rows=5, cols=10, reuse=True)
     w.k.log_seams = False
@@ -126,6 +130,11 @@ def run(ch, ctx, fault=None):
             defaults[i] = obj
             ras.append((obj, i, default_value(i)))
             snaps.append(("ra", obj, ra_snapshot(obj)))
+        # the shared default namespace objects a class hands out are legitimate operands too
+        for i in args_classes_early(classes):
+            shared = defaults[i][classes[i]["cls"]]
+            nss.append((shared, i, dict(classes[i]["fields"])))
+            snaps.append(("ns", shared, ns_snapshot(shared)))
         constructions = [0]
         key = []
 
